@@ -40,6 +40,15 @@ Fixpoint solo (h : nat) (p : phase) (evs : list event) : option result :=
       end
   end.
 
+(* the phase request h, seen alone, is in after the history (None once it has returned) *)
+Fixpoint solo_phase (h : nat) (p : phase) (evs : list event) : phase :=
+  match evs with
+  | [] => p
+  | e :: r => solo_phase h (fst (react h p e)) r
+  end.
+
+Definition is_resum (p : phase) : bool := match p with PResum _ => true | _ => false end.
+
 Definition oresult_eqb (a b : option result) : bool := option_eqb result_eqb a b.
 
 Definition is_none {A} (o : option A) : bool := match o with None => true | _ => false end.
@@ -51,11 +60,14 @@ Definition is_none {A} (o : option A) : bool := match o with None => true | _ =>
    ErrClosedTransport          only if the transport was closed and its own acknowledgement had
                                not been sent
    still blocked               only if its own acknowledgement was never sent and the transport
-                               is open (otherwise it is stuck) *)
+                               is open (otherwise it is stuck)
+   and a QoS 2 caller whose PUBREC has arrived has written its PUBREL (the script waits for it
+   before it goes on, so at the end nobody may still be between PUBREC and PUBREL) *)
 Definition caller_ok (evs : list event) (cl : bool) (h : nat) (o : ostatus * nat) : bool :=
   let '(st, stamp) := o in
   let full := solo h PNone evs in
   let upto := solo h PNone (firstn stamp evs) in
+  negb (is_resum (solo_phase h PNone evs)) &&
   match st with
   | OSucc g => oresult_eqb upto (Some (RSuccess g))
   | OInv => oresult_eqb upto (Some RInvalidSubAck)
@@ -118,6 +130,10 @@ Fixpoint pubrels_match (evs : list event) (outs : list (list out)) : bool :=
 Definition c07_model_ok (c : c07_case) : bool :=
   let '(evs, obs, cl) := c in
   let outs := run sig_init evs in
+  let s_end := state_after sig_init evs in
+  (* every PUBREL the model expects has been seen: unless the transport was closed, no caller
+     is left between PUBREC and PUBREL *)
+  (closed s_end || match resum s_end with [] => true | _ => false end) &&
   wf evs && statuses_match outs cl 0 obs && pubrels_match evs outs
   && Bool.eqb cl (existsb (fun b => b) (closings outs)).
 
